@@ -45,6 +45,7 @@ class Fn:
         self.exit = d.get('exit')
         self._preds = None
         self._order = None
+        self._noret = None
 
     def __repr__(self):
         return '<Fn %s>' % sh(self.sig)
@@ -62,7 +63,25 @@ class Fn:
             return self.blocks[o['b']]['elems'][o['i']]
         return o
 
+    def _noreturn_blocks(self):
+        if self._noret is None:
+            nr = set()
+            for b, blk in self.blocks.items():
+                for e in blk['elems']:
+                    if e.get('k') == 'call' and e.get('cid') is not None:
+                        c = self.tu.cg.get(e['cid'])
+                        if c is not None and c.get('noreturn'):
+                            nr.add(b)
+                    elif e.get('k') == 'throw':
+                        nr.add(b)
+            self._noret = nr
+        return self._noret
+
     def succs(self, b, include_unreach=False):
+        # a block that calls a noreturn function (assertion failure, abort) or throws does not continue: clang links it
+        # to the exit block, which would otherwise look like a normal return path
+        if b in self._noreturn_blocks():
+            return []
         out = []
         for s in self.blocks[b]['succs']:
             if s.get('to') is None:
@@ -146,6 +165,11 @@ class Fn:
                 continue
             if k == 'cast':
                 o = e['sub']
+                continue
+            if k == 'binop' and e.get('op') in ('&&', '||'):
+                # a block that branches on `a && b` / `a || b` is the block that evaluated b (a was decided by the
+                # predecessor's own branch): the value of the whole expression here is the value of b
+                o = e['r']
                 continue
             if k == 'call' and e.get('ck') == 'conv' and e.get('name') == 'operator bool':
                 return o, neg
